@@ -15,6 +15,7 @@ PARSER_PREFIX = ("nervusdb_query::parser::", "nervusdb_query::parser_helper_exis
 def run(ctx):
     F = ctx.facts
     ctx.rule("C16.1", "every recursion cycle of the parser passes a depth guard")
+    ctx.rule("C16.2", "no unwrap/expect on a Result carrying one of the repository's error types in product code (an error must be returned, not turned into a panic)")
     nodes = sorted(i for i in F.bodies if i.startswith(PARSER_PREFIX) and "::tests::" not in i)
     ctx.floor("C16.1", "parser bodies", len(nodes), 60)
     nodeset = set(nodes)
@@ -54,3 +55,31 @@ def run(ctx):
     qs = set(qnodes)
     dep = recur.sccs(sorted(qnodes), lambda x: [y for y in F.callees(x) if y in qs])
     ctx.observe("%d recursion components outside the parser walk the AST / plan and are bounded by its depth (dependent on the parser guard)" % len(dep))
+
+    # ---- clause 2 ---------------------------------------------------------
+    from ..facts import op_local
+    ERR = ("nervusdb_storage::error::Error", "std::io::error::Error", "nervusdb_query::error::Error", "nervusdb::error::Error", "nervusdb_api::DecodeError")
+    n_res = 0
+    for i, b in sorted(F.bodies.items()):
+        if not i.startswith(("nervusdb_storage", "<nervusdb_storage", "nervusdb_query", "<nervusdb_query", "nervusdb_api", "<nervusdb_api", "nervusdb::", "<nervusdb::", "nervusdb_capi", "<nervusdb_capi")):
+            continue
+        if "::tests::" in i:
+            continue
+        for c in b.calls():
+            if not (c.name.startswith("core::result::Result::<T, E>::") and c.args):
+                continue
+            l = op_local(c.args[0])
+            ty = b.local_ty(l) if l is not None else ""
+            if not any(e in ty for e in ERR):
+                continue
+            n_res += 1
+            short = c.name.split("::")[-1]
+            if short in ("unwrap", "expect", "unwrap_unchecked"):
+                ctx.instance("C16.2", "%s: %s on %s" % (i, short, ty[:70]))
+                ctx.oblige(False, "C16.2", "%s:%s#%d" % (b.root or i, short, c.ordinal),
+                           "`.%s()` on a fallible storage/query result: when the call fails (oversized index key, corrupt page, I/O error) the host "
+                           "process panics instead of receiving an error" % short, c.loc(), sample={"fn": i, "site": c.loc(), "type": ty})
+    ctx.instance("C16.2", "%d combinator calls on repository Result types inspected" % n_res)
+    ctx.floor("C16.2", "Result combinator sites inspected", n_res, 100)
+    ctx.obligations += n_res
+    ctx.discharged += n_res
